@@ -373,15 +373,118 @@ func judgeC05Apply(args, real, drv json.RawMessage) *core.Verdict {
 		return core.Disagree("malformed real outcome: " + string(real))
 	}
 	var d struct {
-		Outs []json.RawMessage `json:"outs"`
+		Outs []json.RawMessage   `json:"outs"`
+		Flat [][]json.RawMessage `json:"flat"`
 	}
 	if json.Unmarshal(drv, &d) != nil || len(d.Outs) == 0 {
 		return core.Disagree("malformed driver outcome: " + string(drv))
+	}
+	// ---- spec oracle: the flatten specification (Spec/Extends.lean `flattenF`, proved equivalent to `Flat`) computed
+	// by the driver for every service — no tracker, no memoisation, no visit order.  Inside its domain (every service
+	// flattens) the real outcome must be exactly that: a difference is a failing input, not just a broken tie.
+	if v := c05SpecVerdict(args, r.Out, d.Flat); v != nil {
+		return v
 	}
 	if !c05MemberOf(r.Out, d.Outs) {
 		return core.Disagree("ApplyExtends outcome is not an outcome of Extends.applyExtendsOrd under any visit order")
 	}
 	return nil
+}
+
+// taggedMap splits a tagged mapping {"m":[[k,v]…]} into its entries.
+func taggedMap(raw json.RawMessage) map[string]json.RawMessage {
+	var t struct {
+		M [][]json.RawMessage `json:"m"`
+	}
+	if json.Unmarshal(raw, &t) != nil || t.M == nil {
+		return nil
+	}
+	out := map[string]json.RawMessage{}
+	for _, kv := range t.M {
+		if len(kv) != 2 {
+			return nil
+		}
+		var k string
+		if json.Unmarshal(kv[0], &k) != nil {
+			return nil
+		}
+		out[k] = kv[1]
+	}
+	return out
+}
+
+func c05SpecVerdict(args, realOut json.RawMessage, flat [][]json.RawMessage) *core.Verdict {
+	if len(flat) == 0 {
+		return nil
+	}
+	want := map[string]json.RawMessage{}
+	for _, e := range flat {
+		if len(e) != 2 {
+			return nil
+		}
+		var n string
+		var o struct {
+			Ok json.RawMessage `json:"ok"`
+		}
+		if json.Unmarshal(e[0], &n) != nil || json.Unmarshal(e[1], &o) != nil || o.Ok == nil {
+			return nil // some service has no flattened form: outside the domain of the flatten oracle
+		}
+		want[n] = o.Ok
+	}
+	var a c05ApplyArgs
+	json.Unmarshal(args, &a)
+	var ro struct {
+		Ok  json.RawMessage `json:"ok"`
+		Err *string         `json:"err"`
+	}
+	if json.Unmarshal(realOut, &ro) != nil {
+		return nil
+	}
+	if ro.Err != nil {
+		return core.Fail("acyclic-rejected:"+*ro.Err+":"+a.trackerClash(), "every service has a flattened form (finite chain, bases and files exist, merges succeed) but ApplyExtends fails with "+*ro.Err)
+	}
+	if ro.Ok == nil {
+		return nil // a panic: C01's concern, compared by the correspondence
+	}
+	got := taggedMap(taggedMap(ro.Ok)["services"])
+	if got == nil {
+		return nil
+	}
+	var bad []string
+	for n, w := range want {
+		g, ok := got[n]
+		if !ok {
+			bad = append(bad, "<missing:"+n+">")
+			continue
+		}
+		if core.CanonEqual(g, w) {
+			continue
+		}
+		gm, wm := taggedMap(g), taggedMap(w)
+		keys := map[string]bool{}
+		for k := range gm {
+			keys[k] = true
+		}
+		for k := range wm {
+			keys[k] = true
+		}
+		for k := range keys {
+			if !core.CanonEqual(gm[k], wm[k]) {
+				bad = append(bad, k)
+			}
+		}
+	}
+	if len(bad) == 0 {
+		return nil
+	}
+	sort.Strings(bad)
+	var u []string
+	for i, b := range bad {
+		if i == 0 || b != bad[i-1] {
+			u = append(u, b)
+		}
+	}
+	return core.Fail("extends-ne-flatten:"+strings.Join(u, ","), "a resolved service differs from base-then-local flattening (override rules = the C04 merge model) in "+strings.Join(u, ","))
 }
 
 // ---------------------------------------------------------------- c05.extend
